@@ -114,6 +114,28 @@ pub fn run(tier: Tier) -> Report {
             out
         })
         .collect();
+    // programs far beyond the small bounds (2 500 / 9 000 statements): one line of more than
+    // 65 535 columns (Minimal), more than 65 535 lines (token per line), lone CR line ends
+    let mut fails = fails;
+    {
+        let sizes: &[usize] = if tier == Tier::Quick { &[2500] } else { &[2500, 9000] };
+        let cases: Vec<(usize, Layout)> = sizes.iter().flat_map(|n| [Layout::Minimal, Layout::Lines, Layout::Cr, Layout::Pretty].into_iter().map(move |l| (*n, l))).collect();
+        let hf: Vec<Failure> = cases
+            .par_iter()
+            .flat_map_iter(|(n, layout)| {
+                let pr = print_program(&progs::scale_program(40, 40, *n));
+                let r = render_default(&pr, *layout, &[]);
+                texts.fetch_add(1, Ordering::Relaxed);
+                evals.fetch_add(2, Ordering::Relaxed);
+                eval_text(&r.text, &[DEFAULT_OPT, Opt { tab_size: 1, insert_spaces: false }])
+                    .into_iter()
+                    .take(2)
+                    .map(|(k, d, o)| Failure { key: format!("format:{}:huge-document", k), case: json!({"huge": {"statements": n}, "layout": format!("{:?}", layout), "options": o.json()}), detail: truncate(&d, 800) })
+                    .collect::<Vec<_>>()
+            })
+            .collect();
+        fails.extend(hf);
+    }
     rep.states = texts.load(Ordering::Relaxed);
     rep.transitions = evals.load(Ordering::Relaxed);
     rep.evaluations = rep.transitions;
@@ -128,7 +150,14 @@ pub fn run(tier: Tier) -> Report {
 }
 
 pub fn replay(case: &Value) -> Vec<Failure> {
-    let text = case["text"].as_str().unwrap_or("");
+    let generated;
+    let text = if let Some(n) = case["huge"]["statements"].as_u64() {
+        let pr = print_program(&progs::scale_program(40, 40, n as usize));
+        generated = render_default(&pr, layout_by_name(case["layout"].as_str().unwrap_or("Lines")).unwrap_or(Layout::Lines), &[]).text;
+        generated.as_str()
+    } else {
+        case["text"].as_str().unwrap_or("")
+    };
     let o = Opt {
         tab_size: case["options"]["tabSize"].as_u64().unwrap_or(4) as u32,
         insert_spaces: case["options"]["insertSpaces"].as_bool().unwrap_or(true),
